@@ -268,7 +268,7 @@ def native_stress(run, case, rounds=25):
             def reg(n):
                 c = R.Client(srv.port, n); clients[n] = c
                 if spec.password: c.send('PASS ' + spec.password)
-                c.send(f'NICK {n}'); c.send(f'USER {n} 0 * :Real {n}')
+                c.send(f'NICK {n}'); c.send(f'USER {spec.uname(n)} 0 * :Real {n}')
                 return any(b' 001 ' in l for l in c.barrier())
             for n in ([R.HELPER] if need_helper else []) + nicks:
                 if not reg(n): return None, f'registration of {n} failed'
